@@ -628,30 +628,34 @@ Definition resolve_collision (s : tset) (orig sg : string) : string := resolve_l
 
 (* Type.RegisterTo: structs are registered members first; a struct whose name is taken by a
    different type is renamed in place, so the result is the type with its new names *)
+Section RegLists.
+  Variable reg : ty -> tset -> ty * tset.
+  Fixpoint reg_list (l : list ty) (s : tset) : list ty * tset :=
+    match l with
+    | [] => ([], s)
+    | x :: r => let (x', s1) := reg x s in let (r', s2) := reg_list r s1 in (x' :: r', s2)
+    end.
+  Fixpoint reg_fields (l : list (string * ty)) (s : tset) : list (string * ty) * tset :=
+    match l with
+    | [] => ([], s)
+    | (a, x) :: r => let (x', s1) := reg x s in let (r', s2) := reg_fields r s1 in ((a, x') :: r', s2)
+    end.
+End RegLists.
+Definition struct_block (fs : list (string * ty)) : list (string * string) :=
+  map (fun f => (fst f, idl_name (snd f))) fs.
 Fixpoint register (t : ty) (s : tset) : ty * tset :=
   match t with
   | TS _ => (t, s)
   | TList e => let (e', s1) := register e s in (TList e', s1)
   | TMap k v => let (k', s1) := register k s in let (v', s2) := register v s1 in (TMap k' v', s2)
-  | TTuple ts =>
-      let fix go (l : list ty) (s : tset) : list ty * tset :=
-          match l with
-          | [] => ([], s)
-          | x :: r => let (x', s1) := register x s in let (r', s2) := go r s1 in (x' :: r', s2)
-          end in
-      let (ts', s1) := go ts s in (TTuple ts', s1)
+  | TTuple ts => let (ts', s1) := reg_list register ts s in (TTuple ts', s1)
   | TStruct n fs =>
-      let fix go (l : list (string * ty)) (s : tset) : list (string * ty) * tset :=
-          match l with
-          | [] => ([], s)
-          | (a, x) :: r => let (x', s1) := register x s in let (r', s2) := go r s1 in ((a, x') :: r', s2)
-          end in
-      let (fs', s1) := go fs s in
+      let (fs', s1) := reg_fields register fs s in
       let n' := resolve_collision s1 n (print (TStruct n fs')) in
       let t' := TStruct n' fs' in
       match lookup n' s1 with
       | Some _ => (t', s1)
-      | None => (t', List.app s1 [(n', (print t', Some (map (fun f => (fst f, idl_name (snd f))) fs')))])
+      | None => (t', List.app s1 [(n', (print t', Some (struct_block fs')))])
       end
   end.
 
